@@ -12,6 +12,8 @@
   components of any length, every channel position and every count of channels already expanded.
 -/
 import PercevalModel.Lemmas.C07
+import PercevalModel.Lemmas.C07Mass
+import PercevalModel.Props.C02
 
 open Matrix
 
@@ -297,15 +299,59 @@ theorem marginal_mass_one (M : ℕ) (d : Dist.D) :
   have : Dist.mass (postprocess M d) = Dist.mass d := Dist.mass_mapKeys _ d
   exact ⟨this, fun h => by rw [this, h]⟩
 
-/- NOT PROVED (stated for the record): `IsUnitary U → Dist.mass (fullDist U s) = 1`, i.e. the
-Fock-space distribution of a unitary matrix is normalised (Parseval for permanents; stretch item
-`dist_sums_to_one` of C02).  The correspondence checks on every case that the exact mass of the
-model's enlarged distribution is 1 (`"mass"` reply) and that the real output sums to 1. -/
+/- `IsUnitary U → Dist.mass (fullDist U s) = 1` (Parseval for permanents, C02's `dist_sums_to_one_GQ`) is used
+below in `fullDist_mass_one` / `loss_distribution_mass_one`: the result of a lossy processor is normalised
+outright, not only relative to the enlarged distribution. -/
 
 /-- `LossSimulator.probs` has the mass of the enlarged distribution -/
 theorem lossProbs_mass {N : ℕ} (U : Matrix (Fin N) (Fin N) GQ) (M : ℕ) (s : List ℕ) :
     Dist.mass (lossProbs U M s) = Dist.mass (fullDist U (prepareInput M N s)) :=
   (marginal_mass_one M _).1
+
+/-! ### the result is a normalised distribution (from unitarity, C02's `dist_sums_to_one_GQ`) -/
+
+/-- the Fock-space distribution of a unitary matrix is normalised (Parseval for permanents) -/
+theorem fullDist_mass_one {N : ℕ} (U : Matrix (Fin N) (Fin N) GQ) (hU : IsUnitary U) (s : List ℕ)
+    (hs : s.length = N) : Dist.mass (fullDist U s) = 1 := by
+  rw [mass_fullDist]
+  exact PM.C02.dist_sums_to_one_GQ U hU s hs
+
+/-- `LossSimulator.probs` on any unitary enlarged matrix: total probability one -/
+theorem lossProbs_mass_one {N : ℕ} (U : Matrix (Fin N) (Fin N) GQ) (hU : IsUnitary U) (M : ℕ)
+    (s : List ℕ) (hs : s.length = M) (hMN : M ≤ N) : Dist.mass (lossProbs U M s) = 1 := by
+  rw [lossProbs_mass]
+  exact fullDist_mass_one U hU _ (prepareInput_spec M N s hs hMN).1
+
+/-- **loss_distribution_mass_one**: for every component list the code accepts (`WF`: every interleaving of
+unitary components and loss channels, any channel positions, any number of channels) whose unitary components are
+unitary and whose channel blocks `BS.H(c, s)` are unitary, the distribution `LossSimulator.probs` returns on the
+original modes — the enlarged lossless circuit's distribution with the virtual modes marginalised out — has total
+probability exactly one, for every input state. -/
+theorem loss_distribution_mass_one (M N : ℕ) (items : Items GQ) (hwf : WF N M items)
+    (hu : AllUnitary items) (s : List ℕ) (hs : s.length = M) (hMN : M ≤ N) :
+    Dist.mass (lossProbs (prod N (rewrite M items)) M s) = 1 :=
+  lossProbs_mass_one _ (expanded_isUnitary N items M hwf hu) M s hs hMN
+
+/-- real channel amplitudes with `c² + s² = 1` (transmission `τ = c²`, `0 ≤ τ ≤ 1`) give unitary blocks -/
+theorem realLoss_allUnitary : ∀ items : Items GQ, RealLoss items → AllUnitary items
+  | [], _ => trivial
+  | (_, .uni _ _) :: rest, h => ⟨h.1, realLoss_allUnitary rest h.2⟩
+  | (_, .lc c s) :: rest, h => by
+    refine ⟨bsH_isUnitary c s ?_ ?_ ?_, realLoss_allUnitary rest h.2⟩
+    · ext <;> simp [h.1.1]
+    · ext <;> simp [h.1.2.1]
+    · ext
+      · simp [h.1.1, h.1.2.1]; exact h.1.2.2
+      · simp [h.1.1, h.1.2.1]
+
+/-- the caller's view: a list that fits in the `M` original modes, expanded to `M + (number of channels)` modes,
+unitary components, every loss channel with a real transmission `0 ≤ τ = c² ≤ 1`, `s² = 1 - τ` — the output
+distribution over the original modes sums to one -/
+theorem loss_distribution_mass_one_fits (M : ℕ) (items : Items GQ) (hf : Fits M items)
+    (hr : RealLoss items) (s : List ℕ) (hs : s.length = M) :
+    Dist.mass (lossProbs (prod (expandedM M items) (rewrite M items)) M s) = 1 :=
+  loss_distribution_mass_one M (expandedM M items) items
+    (fits_imp_WF M _ items M hf le_rfl le_rfl) (realLoss_allUnitary items hr) s hs (Nat.le_add_right _ _)
 
 /-! ### `DensityMatrix.apply_loss` -/
 
@@ -413,5 +459,25 @@ example : Fits 3 exItems ∧ WF 6 3 exItems ∧ AllUnitary exItems := by
 example : (1 : ℕ) + 1 < 3 ∧ 3 < 6 ∧ (1 : ℕ) ≤ 3 := by omega
 
 example : ∃ (c s : ℚ), c * c = 1 - s * s ∧ c ≠ 0 ∧ s ≠ 0 := ⟨3/5, 4/5, by norm_num, by norm_num, by norm_num⟩
+
+/-- `loss_distribution_mass_one(_fits)`: the program above (two channels on one interior mode, one on mode 0,
+real transmissions 9/25, 16/25 and 0) with a two-photon input -/
+example : Fits 3 exItems ∧ RealLoss exItems ∧ ([1, 1, 0] : List ℕ).length = 3 ∧ expandedM 3 exItems = 6 := by
+  refine ⟨?_, ?_, rfl, rfl⟩
+  · intro p hp
+    simp only [exItems, List.mem_cons, List.not_mem_nil, or_false] at hp
+    rcases hp with rfl | rfl | rfl | rfl <;> simp [Comp.width]
+  · unfold exItems RealLoss RealLoss RealLoss RealLoss RealLoss
+    refine ⟨⟨rfl, rfl, by norm_num⟩, ?_, ⟨rfl, rfl, by norm_num⟩, ⟨rfl, rfl, ?_⟩, trivial⟩
+    · unfold IsUnitary; decide +kernel
+    · show (0 : ℚ) * 0 + 1 * 1 = 1
+      norm_num
+
+example : Dist.mass (lossProbs (prod 6 (rewrite 3 exItems)) 3 [1, 1, 0]) = 1 :=
+  loss_distribution_mass_one 3 6 exItems (by simp [exItems, WF])
+    (by
+      simp only [exItems, AllUnitary, and_true]
+      refine ⟨?_, ?_, ?_, ?_⟩ <;> unfold IsUnitary <;> decide +kernel)
+    [1, 1, 0] rfl (by omega)
 
 end PM.C07
